@@ -299,7 +299,7 @@ def run(ctx):
         limit = oh + ctx.rng.choice([0, 1, 2, 3, 4, 5, 8, 13, 20, 40, 100, -1, 512 - oh])
         traces.append(run_send(kind, usr, limit, random_text(ctx.rng)))
     # (4) quoting: exhaustive short texts over the quoting alphabets + random
-    LQ = ctx.pick(3, 5)
+    LQ = ctx.pick(3, 4)
     for level, alpha in (("low", LOW_ALPHA), ("ctcp", CTCP_ALPHA)):
         for text in texts_upto(alpha, LQ if level == "low" else LQ + 1):
             traces.append(run_quote(level, text))
